@@ -9,7 +9,7 @@
    (2) a token is in the recovery set of a repetition/option n iff it is in the follow set of some
        dominator of n and can neither start nor follow the body of n. *)
 From Coq Require Import List Arith.
-From LV Require Import Sema Dominators RecoverySpec.
+From LV Require Import Sema Dominators DomFixed RecoverySpec.
 
 Theorem C14_dominators_exact :
   forall pg start nns fuel d,
@@ -19,6 +19,18 @@ Theorem C14_dominators_exact :
   forall n x, In n (nadd start nns) -> In x (nadd start nns) ->
     (In x (dget d n) <-> dominates pg start x n).
 Proof. exact dominators_exact. Qed.
+
+(* the fixpoint certificate is itself a theorem: with a graph in which every listed node has a
+   predecessor and all predecessors are listed, nodes listed once, and the start node not among
+   them (it cannot be referenced, E009), whatever the elimination loop returns is exact *)
+Theorem C14_dominators_exact_without_certificate :
+  forall pg start nns fuel d,
+  graph_ok pg start nns = true -> NoDup nns -> ~ In start nns ->
+  (forall k, In k (map fst pg) -> In k nns) ->
+  dom_iter fuel pg nns (d_init start nns) = Some d ->
+  forall n x, In n (nadd start nns) -> In x (nadd start nns) ->
+    (In x (dget d n) <-> dominates pg start x n).
+Proof. exact dominators_exact_any. Qed.
 
 Theorem C14_recovery_sets_are_dominator_follow_sets :
   forall g fi fo used fuel order rc d pg sb,
@@ -36,3 +48,4 @@ Proof. exact calc_recovery_spec. Qed.
 
 Print Assumptions C14_dominators_exact.
 Print Assumptions C14_recovery_sets_are_dominator_follow_sets.
+Print Assumptions C14_dominators_exact_without_certificate.
